@@ -242,6 +242,35 @@ def compare_all(run, cfg, cases, impl, tag):
 # --------------------------------------------------------------------------
 # oracle: the property on the implementation's observations
 
+def same_meaning(a, b):
+    """equal up to redundant doubled parentheses: Par[Par[x]] says what Par[x] says
+    (brackets inside constants are escaped by the renderers, so bracket matching is safe)"""
+    if a is None or b is None:
+        return a == b
+    return a == b or collapse_par(a) == collapse_par(b)
+
+
+def collapse_par(s):
+    i = s.find("Par[Par[")
+    while i >= 0:
+        j = i + 4
+        depth, k = 0, j + 3
+        while k < len(s):
+            if s[k] == "[":
+                depth += 1
+            elif s[k] == "]":
+                depth -= 1
+                if depth == 0:
+                    break
+            k += 1
+        if k + 1 < len(s) and s[k + 1] == "]":
+            s = s[:i] + s[j:k + 1] + s[k + 2:]
+            i = s.find("Par[Par[", i)
+        else:
+            i = s.find("Par[Par[", i + 1)
+    return s
+
+
 def oracle_parse(c, r):
     """list of problem strings; empty = the property holds on this input"""
     if not r.get("valid_in"):
@@ -256,9 +285,9 @@ def oracle_parse(c, r):
         return ["str() of the object raises %s" % r.get("str_exc")]
     if not r.get("valid_out"):
         return ["the printed text is not a valid pattern: %r" % r.get("str_raw")]
-    if r.get("m_tree") != r.get("re_m_tree"):
+    if not same_meaning(r.get("m_tree"), r.get("re_m_tree")):
         out.append("the printed text means something else: %s, the input meant %s" % (r.get("re_m_tree"), r.get("m_tree")))
-    if r.get("m_ast") != r.get("m_tree"):
+    if not same_meaning(r.get("m_ast"), r.get("m_tree")):
         out.append("the object model means something else: %s, the input meant %s" % (r.get("m_ast"), r.get("m_tree")))
     if r.get("re_str") != r.get("str"):
         out.append("printing is not a fixed point: %r prints again as %r" % (r.get("str"), r.get("re_str")))
@@ -266,20 +295,26 @@ def oracle_parse(c, r):
 
 
 def oracle_prog(c, r):
-    if not c.get("wg"):
-        return []
+    """objects assembled from the public classes: the object is what was assembled (compared with the
+    generator's own reading of its specification); if it is well grouped, its text is a valid pattern that
+    parses back to the same structure, also through the visitor, and prints again to the same text"""
     ast = r.get("ast") or ""
     if not ast.startswith("OK "):
         return []          # the classes refused to build it
-    if r.get("str") is None:
-        return ["str() of the object raises %s" % r.get("str_exc")]
-    if not r.get("valid_out"):
-        return ["the printed text is not a valid pattern: %r" % r.get("str_raw")]
     out = []
-    if r.get("re_m_tree") != r.get("m_ast"):
-        out.append("the printed text parses to another structure: %s, the object is %s" % (r.get("re_m_tree"), r.get("m_ast")))
-    if (r.get("re_ast") or "").startswith("OK ") and r.get("re_m_ast") != r.get("m_ast"):
-        out.append("the re-parsed object means something else: %s vs %s" % (r.get("re_m_ast"), r.get("m_ast")))
+    want = G.prog_meaning(c["spec"])
+    if not same_meaning(r.get("m_ast"), want):
+        out.append("the object is not what was assembled: it means %s, the classes were given %s" % (r.get("m_ast"), want))
+    if not c.get("wg"):
+        return out
+    if r.get("str") is None:
+        return out + ["str() of the object raises %s" % r.get("str_exc")]
+    if not r.get("valid_out"):
+        return out + ["the printed text is not a valid pattern: %r" % r.get("str_raw")]
+    if not same_meaning(r.get("re_m_tree"), want):
+        out.append("the printed text parses to another structure: %s, assembled was %s" % (r.get("re_m_tree"), want))
+    if (r.get("re_ast") or "").startswith("OK ") and not same_meaning(r.get("re_m_ast"), want):
+        out.append("the re-parsed object means something else: %s, assembled was %s" % (r.get("re_m_ast"), want))
     if not (r.get("re_ast") or "").startswith("OK "):
         out.append("the printed text does not parse back into the object model: %s" % r.get("re_ast"))
     return out
@@ -387,7 +422,7 @@ def check(run):
     t0 = time.time()
     with common.Lock():
         t_lock = time.time() - t0
-        res = common.build_props("Props/C10.v")
+        res = common.build_props("Props/C10.v", extra_targets=("Model/PatternShow.vo",))
         run.add_build(res, "make -C coq Props/C10.vo (coqc 8.16.1, full .vo) + Print Assumptions per theorem")
     timing = {"lock_wait_s": round(t_lock, 1), "build_s": round(time.time() - t0 - t_lock, 1)}
     run.coverage["timing"] = timing
